@@ -39,6 +39,8 @@ func replay(e *env) {
 			msg = e.replayCount(&c)
 		case "rebuilt":
 			msg = e.replayRebuilt(&c)
+		case "payers":
+			msg = e.replayPayers(&c)
 		default:
 			fmt.Println("unknown sub-check in replay:", c.Sub)
 			os.Exit(3)
